@@ -264,6 +264,9 @@ def run(ctx, rep):
             if any(x[0] in ("Err", "Panic") and not x[2] for x in rt) or not any(x[0] == "Ok" for x in rt):
                 bad.append("%s == %s -> %s" % (a, b, sorted(rt, key=str)[:2]))
     rep.ob("C12.nil-test", "`x == nil` never fails, whatever kind x holds", "violated" if bad else "ok", "; ".join(bad)[:300], None, key="C12.nil-test|equals")
+    # a `get x` written as a statement is still executed (the statement generator emits `<expr> void` for every expression)
+    from props import C15 as _c15
+    _c15.statements_emit_their_expression(F, rep, "C12.get", only=("Value",))
     rep.floor("C12.handler evaluations", T.evals, 25)
 
 
